@@ -1,1 +1,221 @@
-/-! C16 — property theorems (placeholder until the model exists). -/
+import EupsModel.Lemmas.RecordReloc
+import EupsModel.Lemmas.RecordText
+import EupsModel.Lemmas.RecordEndToEnd
+import EupsModel.Lemmas.RecordDir
+/-! C16 — database records round-trip and stacks are relocatable.  Property theorems only.
+Model and the specification-side definitions used in the statements (`DirPl`, `TabPl`, `DirPl.at`, `TabPl.at`,
+`declaredProd`, `canonInfo`, `PlaceOK`, `DeclEx`, `ReadEx`, `readBack`): `Model/Record.lean`; helper lemmas:
+`Lemmas/Record.lean`, `Lemmas/RecordReloc.lean`, `Lemmas/RecordText.lean` (there also `Clean`, `CleanKey`, `GoodInfo`,
+`GoodVRec`, `GoodCInfo`, `GoodCRec`, `TrimStable`). -/
+namespace EupsModel.C16
+open EupsModel.Record
+
+/-! ## Relocation
+
+A *placement* says where the product directory and the table file are relative to the stack `root`.
+`declaredProd root … d t` is the `Product` that `Eups.declare` hands to `Database.declare`; `declarePaths` is what
+`Database.declare` + `VersionFile.addFlavor/write` store; `resolveInfo` is what `VersionFile.makeProduct` +
+`Product.resolvePaths` give a reader whose stack is at `root'`; `readBack` composes them.  `d.at root'` and
+`t.at root' …` are the locations the property demands: paths inside the stack re-rooted, paths outside unchanged. -/
+
+/-- Products are recorded relative to the stack: for every listed placement the stored block is `canonInfo`,
+which does not mention `root` at all unless the path is outside the stack. -/
+theorem C16_recorded_relative (ex : Path → Bool) (root : List Str) (name version flavor : Str) (d : DirPl) (t : TabPl)
+    (hp : PlaceOK root name version flavor d t) (hx : DeclEx ex root name version flavor d t) :
+    (declarePaths ex (declaredProd root name version flavor d t) none).map (·.2)
+      = .ok (canonInfo name version flavor d t) :=
+  canon_spec ex root name version flavor d t hp hx
+
+/-- **Relocation** (core theorem).  Declare with the stack at `root`; move or copy the stack to `root'`; a reader
+there reports the directory and the table file at `root'` if they were inside the stack and where they were if
+they were outside — for each placement: directory inside / outside / none × table file in `dir/ups` /
+absolute inside the stack / absolute outside / interned in `ups_db` / none. -/
+theorem C16_relocate (ex ex' : Path → Bool) (root root' : List Str) (name version flavor : Str) (d : DirPl) (t : TabPl)
+    (hp : PlaceOK root name version flavor d t) (hroot' : SegsOK root')
+    (hd : DeclEx ex root name version flavor d t) (hr : ReadEx ex' root' name version flavor d t) :
+    readBack ex ex' root root' name version flavor d t
+      = .ok (d.at root', t.at root' name version flavor d) := by
+  have h1 := canon_spec ex root name version flavor d t hp hd
+  have h2 := resolve_spec ex' root root' name version flavor d t hp hroot' hr
+  unfold readBack
+  cases hdp : declarePaths ex (declaredProd root name version flavor d t) none with
+  | error e => simp [hdp, Except.map] at h1
+  | ok cp =>
+    obtain ⟨c, pi⟩ := cp
+    simp only [hdp, Except.map, Except.ok.injEq] at h1
+    subst h1
+    cases hri : resolveInfo ex' name version flavor (absP (root' ++ [sUpsDb])) (canonInfo name version flavor d t) with
+    | error e => simp [hri, Except.map] at h2
+    | ok p =>
+      simp only [hri, Except.map, Except.ok.injEq] at h2
+      simp only [Prod.mk.injEq] at h2
+      simp only [hri, h2.1, h2.2]
+
+/-- Without moving anything (`root' = root`) the reader reports exactly the declared locations. -/
+theorem C16_declared_locations (ex : Path → Bool) (root : List Str) (name version flavor : Str) (d : DirPl) (t : TabPl)
+    (hp : PlaceOK root name version flavor d t)
+    (hd : DeclEx ex root name version flavor d t) (hr : ReadEx ex root name version flavor d t) :
+    readBack ex ex root root name version flavor d t = .ok (d.at root, t.at root name version flavor d) :=
+  C16_relocate ex ex root root name version flavor d t hp hp.root_ok hd hr
+
+/-! Non-vacuity: a concrete stack `/s`, product `a 1` for flavor `L`, installed in `/s/L/a/1`, with the table
+file interned; everything exists.  The hypotheses hold and the reader at `/m/n` finds `/m/n/L/a/1` and
+`/m/n/ups_db/L/a/1/ups/a.table`. -/
+example : PlaceOK [[115]] [97] [49] [76] (.inside [[76], [97], [49]]) .interned :=
+  ⟨by decide, by decide, by decide, by decide, by decide, by simp [SegsOK, SegOK, sUpsDb], trivial⟩
+example : PlaceOK [[115]] [97] [49] [76] (.outside [[111], [97]]) (.absInside [[116], [97, 46, 116]]) :=
+  ⟨by decide, by decide, by decide, by decide, by decide, by simp [SegsOK, SegOK, List.isPrefixOf], by simp [SegsOK, SegOK, sUpsDb]⟩
+example : DeclEx (fun _ => true) [[115]] [97] [49] [76] (.inside [[76], [97], [49]]) .interned := by simp [DeclEx]
+example : ReadEx (fun _ => true) [[109], [110]] [97] [49] [76] (.inside [[76], [97], [49]]) .interned := by simp [ReadEx]
+example : readBack (fun _ => true) (fun _ => true) [[115]] [[109], [110]] [97] [49] [76] (.inside [[76], [97], [49]]) .interned
+    = .ok (.path ⟨true, [[109], [110], [76], [97], [49]]⟩,
+           .path ⟨true, [[109], [110], sUpsDb, [76], [97], [49], sUps, [97] ++ sDotTable]⟩) := by rfl
+
+/-! ## Text round trip
+
+`Clean s`: `s` is non-empty, free of `#`, newline, carriage return and quote characters and has no blank at
+either end.  `GoodVRec r`: product name and version are clean; at least one flavor; flavor names distinct, clean
+and without a qualifier (`:`); in every block each of DECLARER, DECLARED, MODIFIER, MODIFIED, PROD_DIR, UPS_DIR,
+TABLE_FILE is absent or clean, PROD_DIR and TABLE_FILE are present, and UPS_DIR is present unless the table file
+is a placeholder (`none`).  `GoodCRec r`: likewise for a chain record (name, tag, per flavor a clean VERSION and
+the four stamps). -/
+
+/-- **Version files round-trip** (string level): `VersionFile.write` followed by `VersionFile._read` — with the
+product name and version taken from the file or preset to the record's own — yields the same name, version,
+flavors (in order) and per-flavor fields. -/
+theorem C16_text_roundtrip_version (r : VRec) (h : GoodVRec r) (nm vs : Option Str)
+    (hnm : nm = none ∨ nm = r.name) (hvs : vs = none ∨ vs = r.version) :
+    ∃ text, printVersion r = .ok (some text) ∧ parseVersion nm vs text = .ok r :=
+  text_roundtrip_version r h nm vs hnm hvs
+
+/-- **Chain files round-trip** (string level): `ChainFile.write` followed by `ChainFile._read` yields the same
+product name, tag, flavors (in order), tagged versions and stamps. -/
+theorem C16_text_roundtrip_chain (r : CRec) (h : GoodCRec r) (nm tg : Option Str)
+    (hnm : nm = none ∨ nm = r.name) (htg : tg = none ∨ tg = r.tag) :
+    ∃ text, printChain r = .ok (some text) ∧ parseChain nm tg text = .ok r :=
+  text_roundtrip_chain r h nm tg hnm htg
+
+/-- **Other flavors untouched**: `Database.declare` for one flavor of a version file leaves the block of every
+other flavor exactly as it was — hypothesis `TrimStable`: that block holds no existing absolute path below the
+stack root (what the trimming loop of `VersionFile.write` rewrites; blocks eups wrote itself for the listed
+placements hold relative paths for everything inside the stack). -/
+theorem C16_other_flavors_untouched (ex : Path → Bool) (who now : Str) (vr vr' : VRec) (p : Record.Prod)
+    (h : declareRec ex who now vr p = .ok vr') (f' : Str) (hf : f' ≠ p.flavor) (i : Info)
+    (hi : dget vr.flavors f' = some i) (hs : TrimStable ex (stackRoot p.db) i) :
+    dget vr'.flavors f' = some i :=
+  other_flavors_untouched ex who now vr vr' p h f' hf i hi hs
+
+/-- **Other flavors untouched, database layer** (version *and* chain records): `Database.undeclare` of one flavor
+(its tags first, then its block of the version file), `Database.unassignTag` for one flavor and
+`Database.assignTag` for one flavor (a new tag, or a tag re-pointed) leave the block of every other flavor in every
+chain record and in every version record of the product exactly as it was; a record disappears only when its last
+block goes.  `blockC d tag f` / `blockV d version f` = the block of flavor `f` in that record, `none` when the
+record or the block does not exist. -/
+theorem C16_other_flavors_untouched_db (d : PDir) (name tag version flavor who now f' : Str) (hf : f' ≠ flavor) :
+    ((∀ t, (d.undeclare version flavor).blockC t f' = d.blockC t f') ∧
+     (∀ v, (d.undeclare version flavor).blockV v f' = d.blockV v f')) ∧
+    ((∀ t, (d.unassignTag tag flavor).blockC t f' = d.blockC t f') ∧
+     (d.unassignTag tag flavor).versions = d.versions) ∧
+    ((∀ t, (d.assignTag name tag version flavor who now).blockC t f' = d.blockC t f') ∧
+     (∀ v, (d.assignTag name tag version flavor who now).blockV v f' = d.blockV v f')) :=
+  ⟨undeclare_blocks d version flavor f' hf, unassignTag_blocks d tag flavor f' hf,
+   assignTag_blocks d name tag version flavor who now f' hf⟩
+
+/-- Non-vacuity: version `1` declared for flavors `L` and `G`, `current` on both; undeclaring flavor `G` removes
+`G`'s blocks and keeps `L`'s block of the chain record (and of the version record). -/
+example :
+    let ci : CInfo := { version := Fld.val [49], declarer := Fld.val [114] }
+    let vi : Info := { declarer := Fld.val [114], productDir := Fld.val [100] }
+    let d : PDir := { versions := [([49], { name := some [97], version := some [49], flavors := [([76], vi), ([71], vi)] })],
+                      chains := [([99], { name := some [97], tag := some [99], flavors := [([76], ci), ([71], ci)] })] }
+    (d.undeclare [49] [71]).blockC [99] [76] = some ci ∧ (d.undeclare [49] [71]).blockC [99] [71] = none ∧
+    (d.undeclare [49] [71]).blockV [49] [76] = some vi ∧ (d.undeclare [49] [71]).blockV [49] [71] = none := by decide
+
+/-! Non-vacuity: a concrete good version record with two flavors, and a good chain record. -/
+def exampleInfo1 : Info :=
+  { declarer := Fld.val [114], declared := Fld.val [84, 49], productDir := Fld.val [76, 47, 97],
+    upsDir := Fld.val [117, 112, 115], tableFile := Fld.val [97, 46, 116] }
+def exampleInfo2 : Info :=
+  { declarer := Fld.val [114], declared := Fld.val [84, 50], modifier := Fld.val [114],
+    modified := Fld.val [84, 32, 51], productDir := Fld.val [110, 111, 110, 101],
+    tableFile := Fld.val [110, 111, 110, 101] }
+def exampleVRec : VRec :=
+  { name := some [97], version := some [49, 46, 48], flavors := [([76], exampleInfo1), ([71], exampleInfo2)] }
+
+example : GoodVRec exampleVRec := by
+  unfold exampleVRec exampleInfo1 exampleInfo2
+  have c : ∀ s : Str, s ≠ [] → 35 ∉ s → 10 ∉ s → 13 ∉ s → 34 ∉ s → (∀ c, s.head? = some c → Str.isSpace c = false) →
+      (∀ c, s.getLast? = some c → Str.isSpace c = false) → Clean s := fun s a b c d e f g => ⟨a, b, c, d, e, f, g⟩
+  refine ⟨⟨_, rfl, c _ (by decide) (by decide) (by decide) (by decide) (by decide) (by decide) (by decide)⟩,
+    ⟨_, rfl, c _ (by decide) (by decide) (by decide) (by decide) (by decide) (by decide) (by decide)⟩,
+    by simp, by decide, ?_⟩
+  intro x hx
+  simp only [List.mem_cons, List.not_mem_nil, or_false] at hx
+  rcases hx with rfl | rfl
+  · refine ⟨⟨c _ (by decide) (by decide) (by decide) (by decide) (by decide) (by decide) (by decide), by decide⟩,
+      ⟨⟨?_, ?_, ?_, ?_, ?_, ?_, ?_⟩, by simp, by simp, Or.inl (by simp)⟩⟩
+    all_goals first
+      | exact Or.inl rfl
+      | exact Or.inr ⟨_, rfl, c _ (by decide) (by decide) (by decide) (by decide) (by decide) (by decide) (by decide)⟩
+  · refine ⟨⟨c _ (by decide) (by decide) (by decide) (by decide) (by decide) (by decide) (by decide), by decide⟩,
+      ⟨⟨?_, ?_, ?_, ?_, ?_, ?_, ?_⟩, by simp, by simp, Or.inr ⟨_, rfl, by decide⟩⟩⟩
+    all_goals first
+      | exact Or.inl rfl
+      | exact Or.inr ⟨_, rfl, c _ (by decide) (by decide) (by decide) (by decide) (by decide) (by decide) (by decide)⟩
+
+/-! ### Outside the alphabet: qualified flavors -/
+
+def clashInfo (n : Nat) : Info :=
+  { declarer := Fld.val [114], declared := Fld.val [84, n], productDir := Fld.val [100, n],
+    upsDir := Fld.val [117, 112, 115], tableFile := Fld.val [97, 46, 116] }
+def clashRec : VRec :=
+  { name := some [97], version := some [49], flavors := [([76], clashInfo 49), ([76, 58, 98], clashInfo 50)] }
+
+/-- Outside the alphabet of the round-trip theorem: a version file that holds the flavor `L` *and then* the
+qualified flavor `L:b` does not read back — on meeting `QUALIFIERS = "b"` the reader renames the block it already
+has for `L`, so the unqualified declaration is lost and its fields are overwritten. -/
+theorem C16_qualifier_clash_witness :
+    ∃ text, printVersion clashRec = .ok (some text) ∧
+      parseVersion none none text =
+        .ok { name := some [97], version := some [49], flavors := [([76, 58, 98], clashInfo 50)] } := by
+  refine ⟨_, rfl, ?_⟩
+  rfl
+/-! ## End to end -/
+
+/-- **Relocation through the text of the record**: `Database.declare` into an empty version file with the stack at
+`root` yields a record `vr`; `VersionFile.write` prints it; `VersionFile._read` of that text (names preset as
+`Database.findProduct` does) gives `vr` back; `makeProduct` for a reader whose stack is at `root'` reports the
+relocated directory and table file.  Hypotheses: `PlaceOK` (the placement is one of those listed), `TextOK`
+(everything written into the record is clean text: name, version, flavor, the stamps, every path segment; the
+version is not a `LOCAL:` one; a relative path is not literally `none`/`???`/`(none)`), `DeclEx`, `ReadEx`. -/
+theorem C16_relocate_via_text (ex ex' : Path → Bool) (root root' : List Str) (name version flavor who now : Str)
+    (d : DirPl) (t : TabPl) (hp : PlaceOK root name version flavor d t) (hroot' : SegsOK root')
+    (ht : TextOK name version flavor who now d t)
+    (hd : DeclEx ex root name version flavor d t) (hr : ReadEx ex' root' name version flavor d t) :
+    ∃ vr text,
+      declareRec ex who now { name := some name, version := some version, flavors := [] }
+        (declaredProd root name version flavor d t) = .ok vr ∧
+      printVersion vr = .ok (some text) ∧
+      parseVersion (some name) (some version) text = .ok vr ∧
+      (makeProduct ex' vr flavor (absP (root' ++ [sUpsDb]))).map (fun p => (p.dir, p.table))
+        = .ok (d.at root', t.at root' name version flavor d) :=
+  relocate_via_text ex ex' root root' name version flavor who now d t hp hroot' ht hd hr
+
+/-- Non-vacuity of `TextOK`: product `a`, version `1`, flavor `L`, declared by `r` at `T1`, installed in `L/a/1`
+inside the stack, table file interned. -/
+example : TextOK [97] [49] [76] [114] [84, 49] (.inside [[76], [97], [49]]) .interned := by
+  have c : ∀ s : Str, s ≠ [] → 35 ∉ s → 10 ∉ s → 13 ∉ s → 34 ∉ s → (∀ c, s.head? = some c → Str.isSpace c = false) →
+      (∀ c, s.getLast? = some c → Str.isSpace c = false) → Clean s := fun s a b c d e f g => ⟨a, b, c, d, e, f, g⟩
+  have cc : ∀ s : Str, s ≠ [] → 35 ∉ s → 10 ∉ s → 13 ∉ s → 34 ∉ s → (∀ c, s.head? = some c → Str.isSpace c = false) →
+      (∀ c, s.getLast? = some c → Str.isSpace c = false) → 47 ∉ s → SegC s := fun s a b c' d e f g h => ⟨c s a b c' d e f g, h⟩
+  refine ⟨c _ (by decide) (by decide) (by decide) (by decide) (by decide) (by decide) (by decide),
+    c _ (by decide) (by decide) (by decide) (by decide) (by decide) (by decide) (by decide), by decide,
+    ⟨c _ (by decide) (by decide) (by decide) (by decide) (by decide) (by decide) (by decide), by decide⟩,
+    c _ (by decide) (by decide) (by decide) (by decide) (by decide) (by decide) (by decide),
+    c _ (by decide) (by decide) (by decide) (by decide) (by decide) (by decide) (by decide), ⟨?_, by decide⟩, trivial⟩
+  intro s hs
+  simp only [List.mem_cons, List.not_mem_nil, or_false] at hs
+  rcases hs with rfl | rfl | rfl <;>
+    exact cc _ (by decide) (by decide) (by decide) (by decide) (by decide) (by decide) (by decide) (by decide)
+
+end EupsModel.C16
